@@ -283,6 +283,7 @@ var c08Ops = func() []c08Op {
 	add("ImportAlias(a/f,g)", func(w *c08World) bool { w.Alias("a/f", "g"); return true })
 	add("ImportAlias(a/f,.)", func(w *c08World) bool { w.Alias("a/f", "."); return true })
 	add("ImportAlias(b/f,f)", func(w *c08World) bool { w.Alias("b/f", "f"); return true })
+	add("ImportAlias(a/f,_)", func(w *c08World) bool { w.Alias("a/f", "_"); return true })
 	add("ImportAlias(c/f,.)", func(w *c08World) bool { w.Alias("c/f", "."); return true })
 	add("ImportAlias(fmt,.)", func(w *c08World) bool { w.Alias("fmt", "."); return true })
 	add("Anon(z/anon)", func(w *c08World) bool { w.AnonImport("z/anon"); return true })
@@ -348,6 +349,13 @@ func c08Build(hist []int) (*c08World, bool) {
 func (w *c08World) key() string {
 	var sb strings.Builder
 	sb.WriteString(imp.Key(w.F))
+	// the free-standing fragments and the retained placeholder are part of the state too
+	for _, fr := range w.frags {
+		sb.WriteString(imp.Key(fr))
+	}
+	if w.placeholder != nil {
+		sb.WriteString(imp.Key(w.placeholder))
+	}
 	var ps []string
 	for p, q := range w.observed {
 		ps = append(ps, p+"="+q)
